@@ -328,6 +328,11 @@ type chainSpec struct {
 // sometimes other relay options.
 func genChain6(r *Rng, inner dhcpv6.DHCPv6, spec chainSpec) dhcpv6.DHCPv6 {
 	cur := inner
+	// one chain in twelve is big on the wire - interface and remote ids of a few hundred
+	// octets per level (circuit descriptions, certificates' worth of vendor data), so that
+	// the encoding passes 1500, 4096 and more: whatever buffer an encoder sizes by guess
+	// grows while several relay-message options are still open (seeded change C16-15)
+	bigIDs := r.Chance(1, 12)
 	for i := 0; i < spec.depth; i++ {
 		mal := ""
 		if spec.malformed != "" && spec.at == i {
@@ -377,6 +382,12 @@ func genChain6(r *Rng, inner dhcpv6.DHCPv6, spec chainSpec) dhcpv6.DHCPv6 {
 		}
 		if r.Chance(1, 5) {
 			put(genOpt6(r, r.Pick([]int{79, 79, 135, 17, 300}), 0, false))
+		}
+		if bigIDs {
+			put(dhcpv6.OptInterfaceID(r.Bytes(r.Pick([]int{120, 300, 700, 1400}))))
+			if r.Bool() {
+				put(&dhcpv6.OptRemoteID{EnterpriseNumber: uint32(r.U64()), RemoteID: r.Bytes(r.Pick([]int{160, 500}))})
+			}
 		}
 		os := dhcpv6.Options{}
 		os = append(os, before...)
